@@ -757,3 +757,71 @@ def fold_constants(prog: "Program") -> list[str]:
             merge_fstrings(m.tree)
             ast.fix_missing_locations(m.tree)
     return sorted(set(folded))
+
+
+def inline_attribute_aliases(prog: "Program") -> list[str]:
+    """Normalisation: a local bound exactly once, by a plain statement of the function's own body (not in a loop / branch), to a pure attribute chain
+    rooted at `self`, `cls` or a parameter (`limiter = self._limiter`, `broker = self._conn.message_broker`) is read as that chain, provided the
+    function never stores to the chain or to one of its prefixes. Makes every rule indifferent to 'alias for readability' edits."""
+    import copy
+
+    done: list[str] = []
+
+    def chain_root(e: ast.AST):
+        n = 0
+        while isinstance(e, ast.Attribute):
+            e = e.value
+            n += 1
+        return (e.id if isinstance(e, ast.Name) else None), n
+
+    for f in list(prog.functions.values()):
+        fn = f.node
+        if isinstance(fn, ast.Lambda):
+            continue
+        params = {a.arg for a in ast.walk(fn.args) if isinstance(a, ast.arg)}
+        nested = [n for n in ast.walk(fn) if isinstance(n, (ast.FunctionDef, ast.AsyncFunctionDef, ast.Lambda)) and n is not fn]
+        in_nested = {id(x) for nf in nested for x in ast.walk(nf)}
+        binds: dict[str, int] = {}
+        for n in ast.walk(fn):
+            if isinstance(n, ast.Name) and isinstance(n.ctx, (ast.Store, ast.Del)):
+                binds[n.id] = binds.get(n.id, 0) + 1
+        stored_chains = {ast.unparse(a) for a in ast.walk(fn) if isinstance(a, ast.Attribute) and isinstance(a.ctx, (ast.Store, ast.Del))}
+        aliases: dict[str, ast.expr] = {}
+        for st in fn.body:
+            tg, val = None, None
+            if isinstance(st, ast.Assign) and len(st.targets) == 1 and isinstance(st.targets[0], ast.Name):
+                tg, val = st.targets[0].id, st.value
+            elif isinstance(st, ast.AnnAssign) and isinstance(st.target, ast.Name) and st.value is not None:
+                tg, val = st.target.id, st.value
+            if tg is None or binds.get(tg) != 1 or tg in params or not isinstance(val, ast.Attribute):
+                continue
+            root, depth = chain_root(val)
+            if root is None or depth == 0 or (root not in ("self", "cls") and root not in params) or binds.get(root, 0) > 0:
+                continue
+            txt = ast.unparse(val)
+            if any(txt == s or txt.startswith(s + ".") for s in stored_chains):
+                continue
+            # the alias must not be captured by a nested function (its own scope rules apply there)
+            if any(isinstance(x, ast.Name) and x.id == tg and id(x) in in_nested for nf in nested for x in ast.walk(nf)):
+                continue
+            aliases[tg] = val
+        if not aliases:
+            continue
+
+        class T(ast.NodeTransformer):
+            def visit_Name(self, node):
+                if isinstance(node.ctx, ast.Load) and node.id in aliases:
+                    return ast.copy_location(copy.deepcopy(aliases[node.id]), node)
+                return node
+
+        new_body = []
+        for st in fn.body:
+            is_def = (isinstance(st, ast.Assign) and len(st.targets) == 1 and isinstance(st.targets[0], ast.Name) and st.targets[0].id in aliases) or \
+                     (isinstance(st, ast.AnnAssign) and isinstance(st.target, ast.Name) and st.target.id in aliases)
+            if is_def:
+                continue  # the binding itself disappears (a pure attribute read)
+            new_body.append(T().visit(st))
+        fn.body = new_body or [ast.Pass()]
+        ast.fix_missing_locations(fn)
+        done.extend(f"{f.short()}.{a}" for a in aliases)
+    return sorted(done)
